@@ -126,7 +126,7 @@ fn c19_random_mod_limb() {
     kani::cover!(nbytes == 3);
 }
 
-//@ prop=C19,C11 tier=quick profile=k64 funcs="Uint::try_random_bits,Uint::try_random_bits_with_precision,random_bits_core" bound="Uint<2>: every bit_length (u32) and every precision argument, every byte stream of 16 draws: error exactly as documented, else value < 2^bit_length built from the stream bytes in little-endian order with the documented 4-byte rule for the last word" free_bits=1100 stubs="RNG = symbolic tape, one tape word per byte"
+//@ prop=C19,C11 tier=quick profile=k64 funcs="Uint::try_random_bits,Uint::try_random_bits_with_precision,random_bits_core" bound="Uint<2>: every bit_length (u32) and every precision argument, every byte stream of 16 draws: error exactly as documented, else value < 2^bit_length built from the stream bytes in little-endian order with the documented 4-byte rule for the last word" free_bits=1100 stubs="RNG = symbolic tape, one tape word per byte" core=C11
 #[kani::proof]
 #[kani::unwind(20)]
 fn c19_random_bits_uint2() {
@@ -239,16 +239,16 @@ macro_rules! boxed_random_bits {
 boxed_random_bits!(c19_boxed_random_bits_64_64, 64, 64);
 //@ name=c19_boxed_random_bits_100_128 prop=C19,C15,C11 tier=quick profile=k64 funcs="BoxedUint::try_random_bits_with_precision,random_bits_core" bound="bit_length=100, precision=128, every byte stream" free_bits=128 stubs="RNG = symbolic byte tape"
 boxed_random_bits!(c19_boxed_random_bits_100_128, 100, 128);
-//@ name=c19_boxed_random_bits_65_100 prop=C19,C15,C11 tier=quick profile=k64 funcs="BoxedUint::try_random_bits_with_precision,random_bits_core" bound="bit_length=65, precision=100 (not limb aligned), every byte stream" free_bits=128 stubs="RNG = symbolic byte tape"
+//@ name=c19_boxed_random_bits_65_100 prop=C19,C15,C11 tier=quick profile=k64 funcs="BoxedUint::try_random_bits_with_precision,random_bits_core" bound="bit_length=65, precision=100 (not limb aligned), every byte stream" free_bits=128 stubs="RNG = symbolic byte tape" core=C15
 boxed_random_bits!(c19_boxed_random_bits_65_100, 65, 100);
 //@ name=c19_boxed_random_bits_120_100 prop=C19,C11 tier=quick profile=k64 funcs="BoxedUint::try_random_bits_with_precision" bound="bit_length=120 > precision=100 (inside the rounded-up limb): must be BitLengthTooLarge" free_bits=128 stubs="RNG = symbolic byte tape"
 boxed_random_bits!(c19_boxed_random_bits_120_100, 120, 100);
-//@ name=c19_boxed_random_bits_1_0 prop=C19,C11 tier=quick profile=k64 funcs="BoxedUint::try_random_bits_with_precision" bound="bit_length=1 > precision=0: must be BitLengthTooLarge" free_bits=128 stubs="RNG = symbolic byte tape"
+//@ name=c19_boxed_random_bits_1_0 prop=C19,C11 tier=quick profile=k64 funcs="BoxedUint::try_random_bits_with_precision" bound="bit_length=1 > precision=0: must be BitLengthTooLarge" free_bits=128 stubs="RNG = symbolic byte tape" core=C11
 boxed_random_bits!(c19_boxed_random_bits_1_0, 1, 0);
 //@ name=c19_boxed_random_bits_0_0 prop=C19,C11 tier=quick profile=k64 funcs="BoxedUint::try_random_bits_with_precision" bound="bit_length=0, precision=0" free_bits=128 stubs="RNG = symbolic byte tape"
 boxed_random_bits!(c19_boxed_random_bits_0_0, 0, 0);
 
-//@ prop=C19,C15,C11 tier=quick profile=k64 funcs="BoxedUint::random_mod,BoxedUint::try_random_mod,random_mod_core" bound="BoxedUint 2 limbs vs Uint<2>: every non-zero modulus, every RNG stream of 4 words then zeros: same value, same words consumed" free_bits=384 stubs="RNG = bounded symbolic tape"
+//@ prop=C19,C15,C11 tier=quick profile=k64 funcs="BoxedUint::random_mod,BoxedUint::try_random_mod,random_mod_core" bound="BoxedUint 2 limbs vs Uint<2>: every non-zero modulus, every RNG stream of 4 words then zeros: same value, same words consumed" free_bits=384 stubs="RNG = bounded symbolic tape" core=C15
 #[kani::proof]
 #[kani::unwind(10)]
 fn c19_random_mod_boxed_vs_fixed() {
